@@ -343,6 +343,29 @@ TARGETS = [
                            "is_some": "({recv}).isSome", ".size": "({recv}).1", ".data": "({recv}).2.1", ".value_id": "({recv}).2.2",
                            ".pack_id": "({recv}).1", ".content_id": "({recv}).2"},
                   serializes={"variant_id.unwrap()": ("(variant_id.getD 0)", "VariantIdx")})),
+    # ---- the reader's property-header parser (outcome mode: a sequential parser over a byte list)
+    dict(name="propTypeTryFrom", group="Parse", file="src/bases/prop_type.rs", fn="try_from",
+         enums=[dict(rust="PropType", file="src/bases/prop_type.rs", lean="SrcPropType", self_prefix=True, types={})],
+         cfg=dict(params=[("v", N)], ret="SrcPropType", outcome=True, stateful=False)),
+    dict(name="byteSizeTryFrom", group="Parse", file="src/bases/types/byte_size.rs", fn="try_from",
+         enums=[dict(rust="ByteSize", file="src/bases/types/byte_size.rs", discriminants=True, self_prefix=True)],
+         cfg=dict(params=[("v", N)], ret="Nat", outcome=True, stateful=False)),
+    dict(name="rawPropertyParse", group="Parse", file="src/reader/directory_pack/raw_layout.rs", fn="parse",
+         after=r"impl Parsable for RawProperty",
+         enums=[dict(rust="DeportedDefault", file="src/reader/directory_pack/raw_layout.rs", lean="SrcDeportedDefault",
+                     types={"u64": "Nat", "ByteSize": "Nat"}, ctor_prefixes=["DeportedDefault"]),
+                dict(rust="PropertyKind", file="src/reader/directory_pack/raw_layout.rs", lean="SrcPropertyKind",
+                     types={"ByteSize": "Nat", "Option<PackId>": "Option Nat", "Option<u64>": "Option Nat", "Option<i64>": "Option Int",
+                            "ValueStoreIdx": "Nat", "DeportedDefault": "SrcDeportedDefault", "Option<ByteSize>": "Option Nat", "u8": "Nat",
+                            "Option<DeportedInfo>": "Option (Nat × Nat)", "Option<(ASize, BaseArray, Option<u64>)>": "Option (Nat × List UInt8 × Option Nat)",
+                            "u64": "Nat"}, ctor_prefixes=["PropertyKind"]),
+                dict(rust="PropType", file="src/bases/prop_type.rs", lean="SrcPropType", declare=False, types={})],
+         cfg=dict(params=[("bs", "Bytes")], ret="(Nat × SrcPropertyKind × List UInt8)", outcome=True,
+                  reads={"read_u8": "takeLE bs 1", "read_usized": "takeLE bs {0}", "read_isized": "takeLEs bs {0}"},
+                  read_calls={"PString::parse": "takePString bs", "BaseArray::parse": "takeBytes bs {0}"},
+                  try_calls={"PropType::try_from": "propTypeTryFrom {0}", "ByteSize::try_from": "byteSizeTryFrom {0}"},
+                  unwrap_options=True, funcs={"SmallString::default": "[]"},
+                  struct_as={"DeportedInfo": ["id_size", "value_store_idx"], "Self": ["size", "kind", "name"]})),
 ]
 
 
@@ -501,10 +524,16 @@ def apply_enums(t):
     for en in t.get("enums", []):
         variants = rs2lean.enum_decl(read(en["file"]), en["rust"])
         if en.get("discriminants"):
+            prev = None
             for v, _f, disc in variants:
+                if disc is None and prev is not None:
+                    disc = str(prev + 1)      # Rust: an implicit discriminant is the previous one plus one
                 if disc is None:
                     raise rs2lean.Untranslatable(f"enum {en['rust']}: variant {v} has no discriminant")
+                prev = int(rs2lean.int_literal(disc))
                 cfg.setdefault("paths", {})[f"{en['rust']}::{v}"] = rs2lean.int_literal(disc)
+                if en.get("self_prefix"):
+                    cfg.setdefault("paths", {})[f"Self::{v}"] = rs2lean.int_literal(disc)
             continue
         declare = en.get("declare", True)
         lines = [f"inductive {en['lean']} where"]
@@ -526,14 +555,30 @@ def apply_enums(t):
                     cfg.setdefault("struct_patterns", {})[full] = (f"{en['lean']}.{ctor}", [f for f, _ in fields])
                 else:
                     cfg.setdefault("patterns", {})[full] = f"{en['lean']}.{ctor}"
+                    if not fields:
+                        cfg.setdefault("paths", {})[full] = f"{en['lean']}.{ctor}"
         lines.append("  deriving Repr, DecidableEq")
         if declare:
             decls.append("\n".join(lines) + "\n")
     return "\n".join(decls)
 
 
-GROUP_IMPORTS = {"Entry": ["JubakoModel.Generated.FuncsBytes", "JubakoModel.Generated.FuncsDir"], "Stats": ["JubakoModel.Generated.FuncsBytes", "JubakoModel.Generated.FuncsDir"], "Lookup": [], "Fs": ["JubakoModel.Model.BasicCreatorFs"], "Sync": ["JubakoModel.Model.SyncVec"], "Pipe": ["JubakoModel.Model.Pipeline"], "Proto": ["JubakoModel.Model.FileCursor"], "Search": ["JubakoModel.Generated.FuncsBytes"], "Content": ["JubakoModel.Generated.FuncsBytes"], "Dir": ["JubakoModel.Generated.FuncsBytes", "JubakoModel.Model.Bytes"]}
-GROUP_ORDER = ["Bytes", "Content", "Dir", "Order", "Search", "View", "Check", "Proto", "Pipe", "Sync", "Fs", "Lookup", "Stats", "Entry"]
+GROUP_IMPORTS = {"Parse": ["JubakoModel.Model.DirLayout"], "Entry": ["JubakoModel.Generated.FuncsBytes", "JubakoModel.Generated.FuncsDir"], "Stats": ["JubakoModel.Generated.FuncsBytes", "JubakoModel.Generated.FuncsDir"], "Lookup": [], "Fs": ["JubakoModel.Model.BasicCreatorFs"], "Sync": ["JubakoModel.Model.SyncVec"], "Pipe": ["JubakoModel.Model.Pipeline"], "Proto": ["JubakoModel.Model.FileCursor"], "Search": ["JubakoModel.Generated.FuncsBytes"], "Content": ["JubakoModel.Generated.FuncsBytes"], "Dir": ["JubakoModel.Generated.FuncsBytes", "JubakoModel.Model.Bytes"]}
+GROUP_PREAMBLE = {"Parse": """/- semantics of the effects of the parsing code (trusted, DESIGN.md §12.7): `unwrap()` of an `Err` / `None` is a
+   panic; `read_isized(n)` reads `n` bytes little-endian and sign-extends (`LE::read_int`) -/
+def unwrapped {α : Type} : Outcome α → Outcome α
+  | .err _ => .panic ""
+  | o => o
+
+def unwrapOpt {α : Type} : Option α → Outcome α
+  | some v => .ok v
+  | none => .panic ""
+
+def takeLEs (bs : Bytes) (n : Nat) : Outcome (Int × Bytes) :=
+  (takeLE bs n).bind fun (v, r) => .ok (signExtend v n, r)
+
+"""}
+GROUP_ORDER = ["Bytes", "Content", "Dir", "Order", "Search", "View", "Check", "Proto", "Pipe", "Sync", "Fs", "Lookup", "Stats", "Entry", "Parse"]
 
 
 def main():
@@ -605,7 +650,7 @@ def main():
                   "   Bodies of small pure Rust functions translated to Lean; semantics of the translation: DESIGN.md §12.7. -/\n"
                   + imports +
                   "set_option linter.unusedVariables false\n"
-                  "namespace Jubako.Generated\nopen Jubako\n\n")
+                  "namespace Jubako.Generated\nopen Jubako\n\n" + GROUP_PREAMBLE.get(g, ""))
         text = header + "\n".join(chunks[g]) + "\nend Jubako.Generated\n"
         if "--stdout" in sys.argv:
             print(text)
